@@ -55,7 +55,7 @@ func c16(c *Ctx) {
 	r.Assume("(*tls.Conn).Close closes the wrapped connection; brNetConn embeds the connection and inherits its Close")
 	r.Assume("golang.org/x/net/proxy (SOCKS) closes the connections it dials on failure")
 
-	fns := []string{"(*Dialer).DialContext", "netDialWithDeadline$1", "netDialWithTLSHandshake$1", "(*httpProxyDialer).DialContext", "(*Upgrader).Upgrade"}
+	fns := []string{"(*Dialer).DialContext", shortFn(c.returnedFunc("netDialWithDeadline")), shortFn(c.returnedFunc("netDialWithTLSHandshake")), "(*httpProxyDialer).DialContext", "(*Upgrader).Upgrade"}
 	nSites := 0
 	for _, name := range fns {
 		fn := c.fn(name)
